@@ -3,10 +3,17 @@
      insecurecleartextkeyset.Write(h, keyset.NewJSONWriter(w)) / Read(keyset.NewJSONReader(r))
      h.WriteWithAssociatedData(keyset.NewJSONWriter(w), kek, ad) / keyset.ReadWithAssociatedData(keyset.NewJSONReader(r), kek, ad)
 
-   The writer's TEXT is protojson's and deliberately unstable; what matters is
-   what the reader makes of it.  Here the message is printed by the printer of
-   model/JsonKeyset.v and read by its reader (= protojson.Unmarshal, see
-   there).  The encrypted form carries keyset_info (getKeysetInfo: type URL,
+   The writer's TEXT is protojson's and deliberately unstable (random white
+   space); what matters is what the reader makes of it.  The message is printed
+   here in TWO forms and read by the reader of model/JsonKeyset.v (=
+   protojson.Unmarshal, see there): write_*_json uses the model's own canonical
+   form (enums as numbers, URL-alphabet unpadded base64 - the OPPOSITE of what
+   protojson.Marshal emits, it exercises the number / URL branches of the
+   reader), write_*_json_pj the choices protojson.Marshal makes with the options
+   of keyset.NewJSONWriter (enum NAMES, standard padded base64, every field
+   present: it exercises the name tables and the padded / standard branch).
+   The round-trip theorems also hold for ANY text the reader reads as the
+   message (proofs/JsonKeysetC12Proofs.v json_cleartext_read_any_text).  The encrypted form carries keyset_info (getKeysetInfo: type URL,
    status, id, prefix type of every key) next to the ciphertext of the BINARY
    keyset; the reader parses it and does not look at it.
    Enum values: model/Serial.v keeps an enum as the uint64 of its varint (a
@@ -39,6 +46,8 @@ Definition info_of_keyset (ks : pkeyset) : jinfo := mkJInfo (pks_primary ks) (ma
 (* keyset.NewJSONWriter(w).Write / keyset.NewJSONReader(r).Read on proto keysets *)
 Definition write_keyset_json (ks : pkeyset) : bytes := json_text_of_keyset (keyset_to_j ks).
 Definition read_keyset_json (s : bytes) : option pkeyset := option_map keyset_of_j (keyset_of_json_text s).
+(* the same message in the form protojson.Marshal gives it (modulo white space and string escapes) *)
+Definition write_keyset_json_pj (ks : pkeyset) : bytes := json_text_pj_of_keyset (keyset_to_j ks).
 
 Section Handles.
   Variable K : Type.
@@ -47,6 +56,8 @@ Section Handles.
 
   Definition write_cleartext_json (es : list (entry K)) : option bytes :=
     option_map write_keyset_json (entries_to_proto_keyset K ser_k es).
+  Definition write_cleartext_json_pj (es : list (entry K)) : option bytes :=
+    option_map write_keyset_json_pj (entries_to_proto_keyset K ser_k es).
   Definition read_cleartext_json (s : bytes) : option (list (entry K)) :=
     match read_keyset_json s with
     | Some ks => match pks_keys ks with [] => None | _ => handle_from_proto K par_k ks end
@@ -59,6 +70,11 @@ Section Handles.
   Definition write_encrypted_json (es : list (entry K)) (ad : bytes) : option bytes :=
     match entries_to_proto_keyset K ser_k es with
     | Some ks => Some (json_text_of_encrypted (mkJE (aead_enc ad (write_keyset ks)) (Some (info_of_keyset ks))))
+    | None => None
+    end.
+  Definition write_encrypted_json_pj (es : list (entry K)) (ad : bytes) : option bytes :=
+    match entries_to_proto_keyset K ser_k es with
+    | Some ks => Some (json_text_pj_of_encrypted (mkJE (aead_enc ad (write_keyset ks)) (Some (info_of_keyset ks))))
     | None => None
     end.
   Definition read_encrypted_json (s ad : bytes) : option (list (entry K)) :=
